@@ -8,6 +8,7 @@ package tracer
 // the sentinel that fails on first use; any other name gives the broken decompressor.
 
 //@ func GetDecompressor
+//@   dead "return brokenDecompressor{}" //# the second one: compression.GetDecompressor cannot fail for the six known values
 //@   modifies ghosts:*Src
 //@   ensures @known forall f int :: 1 <= f && f <= 6 && compName(f) == strLower(encoding) ==> result != nil && (decFormat(result) == f || decFormat(result) == 0)
 //@   ensures @empty strLower(encoding) == "" ==> result != nil && decFormat(result) == 1
